@@ -82,6 +82,15 @@ theorem ArgsTie_parseProds (pv : PyVals V) (f : Func V P) : parseProdsGen pv f =
     ArgsTie_productValue, (ArgsTie_collectTree _).2]
   rfl
 
+/-- `tree_util.py`: each wrapper the model's `leaves` / `map` / `mapWithPath` / `struct` / `paths` stand for is the optree function
+of the same name with `none_is_leaf=True` (so `None` is a leaf everywhere: `noneTree` is `.leaf`). -/
+theorem ArgsTie_treeUtil :
+    Generated.Args.treeWrappers =
+      [("tree_flatten_with_path", "tree_flatten_with_path", true), ("tree_leaves", "tree_leaves", true), ("tree_map", "tree_map", true),
+       ("tree_map_with_path", "tree_map_with_path", true), ("tree_structure", "tree_structure", true)] ∧
+    ∀ (α : Type) (x : α), PyTree.leaves (noneTree x) = [x] := by
+  refine ⟨rfl, fun α x => by simp [noneTree, Generated.treeNoneIsLeaf, leaves]⟩
+
 /-- `execute.pytask_execute_task`: dry-run guard, keyword arguments, the call, the return block, `return True` — in this order. -/
 theorem ArgsTie_execute_steps :
     Generated.Args.execSteps = [.dryRunGuard, .kwargs, .call, .returnBlock, .returnTrue] := rfl
